@@ -23,6 +23,11 @@ type fnInfo struct {
 	n   int
 }
 
+type methKey struct {
+	t types.Type
+	m *types.Func
+}
+
 type deferred struct {
 	fn   Value
 	args []Value
@@ -93,6 +98,7 @@ type Interp struct {
 	schedTrace   []int
 	sigTags      []string
 	ixCache      map[*ssa.Function]*Intrinsic
+	methCache    map[methKey]Value
 	Explore      bool
 	RaceDetect   bool
 	Unwind       int
@@ -101,7 +107,7 @@ type Interp struct {
 }
 
 func NewInterp(prog *ssa.Program, ctx *smt.Ctx, sol *smt.Solver) *Interp {
-	return &Interp{Prog: prog, Ctx: ctx, Sol: sol, infos: map[*ssa.Function]*fnInfo{}, FuncsEntered: map[*ssa.Function]int{}, ixCache: map[*ssa.Function]*Intrinsic{}}
+	return &Interp{Prog: prog, Ctx: ctx, Sol: sol, infos: map[*ssa.Function]*fnInfo{}, FuncsEntered: map[*ssa.Function]int{}, ixCache: map[*ssa.Function]*Intrinsic{}, methCache: map[methKey]Value{}}
 }
 
 func (in *Interp) resetRun() {
@@ -573,7 +579,7 @@ func (in *Interp) step(g *G) {
 			}
 		}
 	case *ssa.Select:
-		unsupported("select")
+		in.selectOp(g, fr, ins)
 	default:
 		unsupported("instruction %T", ins)
 	}
@@ -613,6 +619,10 @@ func (in *Interp) methodOf(t types.Type, m *types.Func) Value {
 			return mkStr("<opaque error>"), true
 		}}}
 	}
+	key := methKey{t, m}
+	if v, ok := in.methCache[key]; ok {
+		return v
+	}
 	sel := in.Prog.MethodSets.MethodSet(t).Lookup(m.Pkg(), m.Name())
 	if sel == nil {
 		unsupported("no method %s on %s", m.Name(), t)
@@ -621,7 +631,9 @@ func (in *Interp) methodOf(t types.Type, m *types.Func) Value {
 	if fn == nil {
 		unsupported("abstract method %s on %s", m.Name(), t)
 	}
-	return Value{K: KFunc, R: &Closure{Fn: fn}}
+	v := Value{K: KFunc, R: &Closure{Fn: fn}}
+	in.methCache[key] = v
+	return v
 }
 
 func (in *Interp) doCall(g *G, fr *Frame, call *ssa.CallCommon, dst *ssa.Call) {
